@@ -561,7 +561,10 @@ void libxmp_mixer_softmixer(struct context_data *ctx)
 	}
 
 #ifdef LIBXMP_PAULA_SIMULATOR
-	if (p->flags & XMP_FLAGS_A500) {
+	/* the Paula states exist only when the module already was an Amiga module at
+	 * xmp_start_player; flags and player mode can be changed afterwards */
+	if ((p->flags & XMP_FLAGS_A500) && p->virt.maxvoc > 0 &&
+	    p->virt.voice_array[0].paula != NULL) {
 		if (IS_AMIGA_MOD()) {
 			if (p->filter) {
 				mixerset = a500led_mixers;
